@@ -1,4 +1,5 @@
 import ActixNet.Model.Connect
+import ActixNet.Model.Tls
 import Driver.Util
 /-! Engine `tls`: line protocol for the connector model (C19) and the TLS acceptor model (C18).
 
@@ -279,22 +280,186 @@ def runConn (c : ConnCase) (op : ConnOp) : String :=
       | none => "-"
     s!"lk={lk} res={res} acc=[{",".intercalate acc}]"
 
-/-! ### engine -/
-
-inductive Case where
-  | none
-  | conn (c : ConnCase)
-
-structure State where
-  case : Case := .none
-
-def init : State := {}
-
 def kvGet (k : String) (ws : List String) : Option String :=
   (ws.filterMap fun w =>
     match splitOnChar '=' w.toList with
     | a :: b :: rest => if String.ofList a == k then some (String.ofList ("=".toList.intercalate (b :: rest))) else none
     | _ => none).getLast?
+
+/-! ### C18: acceptor cases
+
+`case <name> kind=acc max=<n|default> tmo=<ms|default>`; ops `ready`, `call <r|o> <r13|r12|o13|o12>`,
+`poll k`, `drop k`, `cflight k full|part|rest`, `garbage k <kind>`, `close k`, `advance ms`, `run ms`,
+`echo k n seed`.  Virtual time in ms. -/
+
+instance : Inhabited ActixNet.Tls.Conn := ⟨{}⟩
+
+open ActixNet.Tls in
+structure AccCase where
+  svc : Svc
+  conns : Array Conn := #[]
+  results : Array (Option Outcome) := #[]
+  now : Nat := 0
+
+namespace AccCase
+open ActixNet.Tls
+
+def outcomeStr : Outcome → String
+  | .ok => "ok" | .tlsErr => "tlserr" | .timeout => "timeout"
+
+def b01 (b : Bool) : String := if b then "1" else "0"
+
+def alive (c : AccCase) (k : Nat) : Bool := k < c.conns.size && (c.svc.futs k).isAlive
+
+def deadline (c : AccCase) (k : Nat) : Nat :=
+  match c.svc.futs k with
+  | .alive d => d
+  | _ => 0
+
+/-- poll future `k` (must be alive) -/
+def pollOne (c : AccCase) (k : Nat) : AccCase × Option Outcome :=
+  let conn := c.conns[k]!
+  let (svc', o) := c.svc.pollK k c.now conn.hsPoll
+  ({ c with svc := svc', conns := c.conns.set! k conn.afterPoll,
+            results := match o with | some r => c.results.set! k (some r) | none => c.results }, o)
+
+def wokenList (c : AccCase) : String :=
+  let ks := (List.range c.conns.size).filter fun k => c.alive k && c.conns[k]!.woken
+  let xs := ks.map toString ++ (if c.svc.woken then ["r"] else [])
+  "[" ++ ",".intercalate xs ++ "]"
+
+/-- timers: a parked future whose deadline lies in `(old, new]` is woken -/
+def tick (c : AccCase) (new : Nat) : AccCase :=
+  let conns := (List.range c.conns.size).foldl (fun (cs : Array Conn) k =>
+    let cn := cs[k]!
+    if c.alive k && cn.polled && c.now < c.deadline k && c.deadline k ≤ new then cs.set! k { cn with woken := true } else cs) c.conns
+  { c with conns := conns, now := new }
+
+/-- executor discipline: poll every future that has been woken (or was never polled) -/
+def sweep (c : AccCase) (done : List String) : AccCase × List String :=
+  (List.range c.conns.size).foldl (fun (acc : AccCase × List String) k =>
+    let (c, done) := acc
+    if c.alive k && (c.conns[k]!.woken || !c.conns[k]!.polled) then
+      let (c', o) := c.pollOne k
+      match o with
+      | some r => (c', done ++ [s!"{k}:{outcomeStr r}@{c.now}"])
+      | none => (c', done)
+    else (c, done)) (c, done)
+
+def runMs (c : AccCase) : Nat → List String → AccCase × List String
+  | 0, done => (c, done)
+  | n + 1, done =>
+    let c1 := c.tick (c.now + 1)
+    let (c2, done2) := c1.sweep done
+    runMs c2 n done2
+
+def step (c : AccCase) (ws : List String) : AccCase × String :=
+  match ws with
+  | ["ready"] =>
+    let (svc', a) := c.svc.pollReady
+    ({ c with svc := svc' }, if a then "ready" else "pending")
+  | ["call", lib, cli] =>
+    if (lib == "r" || lib == "o") && (cli == "r13" || cli == "r12" || cli == "o13" || cli == "o12") then
+      ({ c with svc := c.svc.call c.now, conns := c.conns.push {}, results := c.results.push none }, s!"ok {c.conns.size}")
+    else (c, "bad-op")
+  | ["poll", k] =>
+    match k.toNat? with
+    | some k =>
+      if c.alive k then
+        let (c', o) := c.pollOne k
+        (c', s!"{match o with | some r => outcomeStr r | none => "pending"} r={b01 c'.svc.woken}")
+      else (c, "bad-op")
+    | none => (c, "bad-op")
+  | ["drop", k] =>
+    match k.toNat? with
+    | some k =>
+      if c.alive k then
+        let svc' := c.svc.dropK k
+        ({ c with svc := svc' }, s!"ok r={b01 svc'.woken}")
+      else (c, "bad-op")
+    | none => (c, "bad-op")
+  | ["cflight", k, mode] =>
+    let m? : Option FlightMode := match mode with
+      | "full" => some .full | "part" => some .part | "rest" => some .rest | _ => none
+    match k.toNat?, m? with
+    | some k, some m =>
+      if c.alive k && !c.conns[k]!.spoiled && !c.conns[k]!.closed then
+        let (cn, sent) := c.conns[k]!.cflight m
+        ({ c with conns := c.conns.set! k cn }, s!"{if sent then "sent" else "nothing"} w={b01 cn.woken}")
+      else (c, "bad-op")
+    | _, _ => (c, "bad-op")
+  | ["garbage", k, kind] =>
+    match k.toNat? with
+    | some k =>
+      if c.alive k && !c.conns[k]!.spoiled && !c.conns[k]!.closed && c.conns[k]!.delivered < 2 && (kind == "http" || kind == "zero" || kind == "ff" || kind == "rnd") then
+        let cn := c.conns[k]!.garbage
+        ({ c with conns := c.conns.set! k cn }, s!"ok w={b01 cn.woken}")
+      else (c, "bad-op")
+    | none => (c, "bad-op")
+  | ["close", k] =>
+    match k.toNat? with
+    | some k =>
+      if c.alive k && !c.conns[k]!.spoiled && !c.conns[k]!.closed then
+        let cn := c.conns[k]!.close
+        ({ c with conns := c.conns.set! k cn }, s!"ok w={b01 cn.woken}")
+      else (c, "bad-op")
+    | none => (c, "bad-op")
+  | ["advance", ms] =>
+    match ms.toNat? with
+    | some ms =>
+      if ms ≤ 20000 then
+        let c' := c.tick (c.now + ms)
+        (c', s!"t={c'.now} woken={c'.wokenList}")
+      else (c, "bad-op")
+    | none => (c, "bad-op")
+  | ["run", ms] =>
+    match ms.toNat? with
+    | some ms =>
+      if ms ≤ 20000 then
+        let (c0, d0) := c.sweep []
+        let (c', done) := c0.runMs ms d0
+        (c', s!"t={c'.now} done=[{",".intercalate done}] r={b01 c'.svc.woken}")
+      else (c, "bad-op")
+    | none => (c, "bad-op")
+  | ["echo", k, n, seed] =>
+    match k.toNat?, n.toNat?, seed.toNat? with
+    | some k, some n, some _ =>
+      if k < c.results.size && c.results[k]! == some Outcome.ok && n ≤ 1048576 then (c, "ok") else (c, "bad-op")
+    | _, _, _ => (c, "bad-op")
+  | _ => (c, "bad-op")
+
+end AccCase
+
+def canonNat (s : String) : Option Nat :=
+  match s.toNat? with
+  | some n => if toString n == s then some n else none
+  | none => none
+
+def parseAccHeader (rest : List String) : Option AccCase :=
+  if rest.length != 3 || kvGet "kind" rest != some "acc" then none else
+  let max? : Option Nat := match kvGet "max" rest with
+    | some "default" => some ActixNet.Src.tlsDefaultMaxConn
+    | some m => (canonNat m).filter (· ≤ 300)
+    | none => none
+  let tmo? : Option Nat := match kvGet "tmo" rest with
+    | some "default" => some ActixNet.Src.tlsDefaultHandshakeTimeoutMs
+    | some t => (canonNat t).filter (fun x => 1 ≤ x ∧ x ≤ 20000)
+    | none => none
+  match max?, tmo? with
+  | some m, some t => some { svc := { cap := m, tmo := t } }
+  | _, _ => none
+
+/-! ### engine -/
+
+inductive Case where
+  | none
+  | conn (c : ConnCase)
+  | acc (c : AccCase)
+
+structure State where
+  case : Case := .none
+
+def init : State := {}
 
 def step (st : State) (line : String) : State × String :=
   match words line with
@@ -305,6 +470,10 @@ def step (st : State) (line : String) : State × String :=
       match ks with
       | some ks => if ks.length ≤ 8 ∧ rest.length = 2 then ({ case := .conn { eps := ks } }, "ok") else ({ case := .none }, "bad-op")
       | none => ({ case := .none }, "bad-op")
+    | some "acc" =>
+      match parseAccHeader rest with
+      | some c => ({ case := .acc c }, "ok")
+      | none => ({ case := .none }, "bad-op")
     | _ => ({ case := .none }, "bad-op")
   | "conn" :: ws =>
     match st.case with
@@ -313,6 +482,11 @@ def step (st : State) (line : String) : State × String :=
       | some op => (st, runConn c op)
       | none => (st, "bad-op")
     | _ => (st, "bad-op")
-  | _ => (st, "bad-op")
+  | ws =>
+    match st.case with
+    | .acc c =>
+      let (c', o) := c.step ws
+      ({ case := .acc c' }, o)
+    | _ => (st, "bad-op")
 
 end Driver.Tls
